@@ -10,6 +10,8 @@ type work struct {
 // startWorker starts a new resource worker that will listen for resources to
 // process requests on.
 func (s *Service) startWorker() {
+	verifPoint("worker.start", nil)
+	defer verifPoint("worker.exit", nil)
 	s.mu.Lock()
 	defer s.mu.Unlock()
 	defer s.wg.Done()
@@ -39,7 +41,9 @@ func (w *work) processQueue() {
 		f = w.queue[idx]
 		w.s.mu.Unlock()
 		idx++
+		verifPoint("work.beforeCall", w.wid)
 		f()
+		verifPoint("work.afterCall", w.wid)
 		w.s.mu.Lock()
 	}
 	// Work complete. Delete if it has a work ID.
